@@ -26,3 +26,9 @@ package lib
 //@   trusted
 //@   modifies b.B
 //@   ensures len(b.B) == n && cap(b.B) >= n
+
+//@ func TakeTimer
+//@   trusted
+//@   ensures result != nil
+//@ func ReleaseTimer
+//@   trusted
